@@ -61,6 +61,15 @@ func handleFuncOpts(expShape Shape, expType Dtype, o DataOrder, strict bool, opt
 	return
 }
 
+// newDenseLike allocates the result of an operation on t: a *Dense of element type dt
+// that has the shape and the data order of t.
+func newDenseLike(e Engine, dt Dtype, t Tensor) *Dense {
+	if _, ok := t.(DenseTensor); ok && t.DataOrder().IsColMajor() {
+		return NewDense(dt, t.Shape().Clone(), WithEngine(e), AsFortran(nil))
+	}
+	return NewDense(dt, t.Shape().Clone(), WithEngine(e))
+}
+
 func binaryCheck(a, b Tensor, tc *typeclass) (err error) {
 	// check if the tensors are accessible
 	if !a.IsNativelyAccessible() {
